@@ -270,10 +270,10 @@ func restC18(o *Opts) {
 		}
 	}
 	// the embedded constructor
-	for _, q := range []int{7, 1, 3, 12, 128, -4} {
+	for _, q := range []int{7, 1, 3, 12, 128, -4, 64, 8, 0} {
 		for _, d := range []int{3, 0, -2} {
-			if (q == 0) && d > 0 {
-				continue
+			if (q == 0 || q == 64 || q == 8) && d > 0 {
+				continue // supported: not what this grid is about
 			}
 			path := filepath.Join(o.Scratch, "ctor.dat")
 			os.Remove(path)
